@@ -874,6 +874,17 @@ func (g *G) assignStmt() {
 			}
 			g.line("%s = append(%s, %s)", v.Name, v.Name, strings.Join(parts, ", "))
 		case 1:
+			if v.MinLen > 0 && t.Elem.numeric() && rx.Chance(g.rt, "sideindex", 1, 3) {
+				// the index expression has a side effect: it is evaluated once per statement
+				g.meta.feat("sideindex")
+				if rapid.Bool().Draw(g.rt, "sideincdec") {
+					g.line("%s[idx(tick(), len(%s))]%s", v.Name, v.Name, rx.Pick(g.rt, "sideop", "++", "--"))
+				} else {
+					g.line("%s[idx(tick(), len(%s))] %s %s", v.Name, v.Name, rx.Pick(g.rt, "sideopassign", "+=", "-=", "*="), g.operand(t.Elem, 1))
+				}
+				g.line("fmt.Println(\"ticks\", ticks)")
+				break
+			}
 			if v.MinLen > 0 {
 				g.meta.feat("elemset")
 				if v.MinLen >= 2 && rx.Chance(g.rt, "constidx", 1, 4) {
@@ -952,7 +963,19 @@ func (g *G) assignStmt() {
 				g.line("fmt.Println(\"recount\", %s, len(%s))", cnt, v.Name)
 			}
 		default:
-			if t.Elem.numeric() {
+			if t.Elem.numeric() && rx.Chance(g.rt, "sidekey", 1, 3) {
+				g.meta.feat("sideindex")
+				kf := "tkey()"
+				if t.Key == "int" {
+					kf = "ikey()"
+				}
+				if rapid.Bool().Draw(g.rt, "sideincdec") {
+					g.line("%s[%s]++", v.Name, kf)
+				} else {
+					g.line("%s[%s] += %s", v.Name, kf, g.operand(t.Elem, 1))
+				}
+				g.line("fmt.Println(\"ticks\", ticks)")
+			} else if t.Elem.numeric() {
 				g.meta.feat("mapopassign")
 				g.line("%s[%s] += %s", v.Name, key, g.expr(t.Elem, 1))
 			} else {
@@ -1598,6 +1621,7 @@ func Program(rt *rapid.T, p Profile) (*oracle.Program, *Meta) {
 		top.WriteString("\nfunc note(s string, v int) int {\n\tinitLog += s + \";\"\n\treturn v + len(initLog)\n}\n")
 	}
 	top.WriteString("\n")
+	top.WriteString("var ticks int\n\nfunc tick() int {\n\tticks++\n\treturn ticks\n}\n\nfunc tkey() string {\n\tticks++\n\treturn \"k1\"\n}\n\nfunc ikey() int {\n\tticks++\n\treturn 1\n}\n\n")
 	top.WriteString("func idx(i int, n int) int {\n\tif n <= 0 {\n\t\treturn 0\n\t}\n\ti = i % n\n\tif i < 0 {\n\t\ti += n\n\t}\n\treturn i\n}\n\n")
 	// functions of increasing level
 	nf := rx.Range(rt, "nfuncs", 0, 4)
